@@ -269,6 +269,9 @@ def parse_rvalue(s):
     s = s.strip()
     if s.startswith('no_retag '):
         s = s[9:]
+    if s.startswith('&raw const (fake) '):
+        # address taken only for a pattern-matching/indexing check (never written through): an ordinary raw reference
+        return ('ref', 'raw', parse_place(s[18:]))
     if s.startswith('&raw const '):
         return ('ref', 'raw', parse_place(s[11:]))
     if s.startswith('&raw mut '):
